@@ -938,7 +938,7 @@ def csv_samples(rng, tier):
          ("nul", b"a,b\n1,\x002\n3,4\n"), ("nul-only", b"\x00\x00\x00"), ("nul-header", b"\x00a,b\n1,2\n"), ("cr-only", b"\r\r\r"), ("bom-partial", b"\xef\xbb"),
          ("bom", b"\xef\xbb\xbfa,b\n1,2\n"), ("empty", b""), ("newline", b"\n"), ("commas", b",\n"), ("only-header", b"a,b"), ("crlf-mixed", b"a,b\r\n1,2\n3,4\r5,6\r\n"),
          ("huge-field", big), ("many-columns", b",".join(b"c%d" % i for i in range(3000)) + b"\n" + b",".join(b"1" for _ in range(3000)) + b"\n"),
-         ("long-line-no-newline", b"1," * 200000), ("quotes-only", b'""""""""'), ("quoted-newlines", b'a,b\n"1\n\n\n",2\n'),
+         ("long-line-no-newline", b"1," * 40000), ("quotes-only", b'""""""""'), ("quoted-newlines", b'a,b\n"1\n\n\n",2\n'),
          ("big-int", b"a\n" + b"9" * 400 + b"\n"), ("float-junk", b"a\n1e99999\n-1e-99999\nnan\ninf\n"), ("dup-header", b"a,a,a\n1,2,3\n"),
          ("empty-header-names", b",,\n1,2,3\n"), ("type-flip-late", b"a\n" + b"1\n" * 3000 + b"x\n"), ("utf8-late", b"a,b\n" + b"1,2\n" * 3000 + b"\xc3")]
     n = 40 if tier == "quick" else 600
